@@ -332,6 +332,15 @@ def _is_identity_only(x):
 def subscript(I, obj, idx):
     ctx = I.ctx
     obj = ctx.from_val(obj) if isinstance(obj, SV) else obj
+    idx_is_str = isinstance(idx, str) or (isinstance(idx, SV) and isinstance(idx.ty, TStr))
+    if idx_is_str and (isinstance(obj, (VTuple, VList)) or (isinstance(obj, SV) and isinstance(obj.ty, (TStr, TNum, TBool, TNone, TSeq, TTuple)))):
+        # a str index into a list / tuple / str / number / None: "indices must be integers" / "not subscriptable"
+        raise PyRaise(I.make_exception(ExternalRef("TypeError"), ["indices must be integers / object is not subscriptable"]))
+    if idx_is_str and isinstance(obj, SV) and isinstance(obj.ty, TObj):
+        owner, mem = I.repo.lookup_member(ctx.resolve_ty(obj.ty).cls, "__getitem__")
+        mro_ext = [k for k in I.repo.mro(ctx.resolve_ty(obj.ty).cls) if isinstance(k, ExternalRef) and k.dotted not in ("object", "typing.Generic", "abc.ABC")]
+        if mem is None and not mro_ext:
+            raise PyRaise(I.make_exception(ExternalRef("TypeError"), ["object is not subscriptable"]))
     if isinstance(obj, (VTuple, VList)):
         k = _const_index(idx)
         if k is None:
@@ -721,6 +730,14 @@ def _isinstance1(I, v, c):
                 r = h(I, v, c)
                 if r is not NotImplemented:
                     return r
+            if isinstance(ty, TAny):
+                # an arbitrary value: whether it is an instance of this class is an unknown fact about it (both outcomes are
+                # explored); where the path condition settles it, the value is narrowed to the class's shape (Ctx.narrow)
+                from .engine import isa as _isa
+
+                f = z3.And(Z.is_refv(v.t), Z.Val.id(v.t) > 0, _isa(z3.Select(ctx.field_array("$cls"), Z.Val.id(v.t)), z3.IntVal(reg.cid(c))))
+                ctx.ghost.setdefault(("narrow", z3.simplify(v.t).sexpr()), []).append((c, f))
+                return f
             raise Unsupported("isinstance(%r, %r)" % (v, c))
         # python-level values
         if isinstance(c, ClassInfo):
@@ -769,6 +786,11 @@ def b_hasattr(I, args, kw):
     if not isinstance(name, str):
         raise Unsupported("hasattr with symbolic name")
     obj2 = I.ctx.from_val(obj) if isinstance(obj, SV) else obj
+    for kind, nat in ((VDict, dict), (VList, list), (VTuple, tuple), (VSet, set), (str, str), (bool, bool), (int, int), (float, float)):
+        if isinstance(obj2, kind):
+            return hasattr(nat, name)        # a display / constant: exactly the attributes of its Python type
+    if isinstance(obj2, SV) and isinstance(obj2.ty, (TStr, TNum, TBool, TNone)):
+        return all(hasattr(nat, name) for nat in {TStr: (str,), TNum: (int, float), TBool: (bool,), TNone: (type(None),)}[type(obj2.ty)])
     if isinstance(obj2, SV) and isinstance(obj2.ty, (TAny, TAbs)) and not (isinstance(obj2.ty, TAbs) and (name in obj2.ty.fields or name in obj2.ty.methods)):
         h = I.E.externals.get("hasattr")
         if h is not None:
